@@ -13,7 +13,7 @@ RULE = ("cases = one call of PointAttribute::DeduplicateValues (dv), PointCloud/
         "duplicate faces, isolated points. Every case is compared as text with the Coq model's result (values as hex bytes, maps, faces). "
         "Direct checks on the implementation per case: point/corner value bytes preserved, no equal values / equal points left, "
         "idempotence, cleanup result against an independent computation from the documented semantics, builder results carry the given "
-        "bytes; MeshStripifier output (both modes) decodes to the mesh's triangles (implementation only, no model). A case is distinct by "
+        "bytes; MeshStripifier (strip r / strip d cases, both modes): index stream compared with the model's (Model/Strips.v, the library's opposite-corner table is an input of the model; a stream that differs but decodes to the same triangles counts as a free choice of the heuristic, not as a disagreement), the hypothesis of the partial strip theorem evaluated on every case, and the library's stream decoded by the harness must give the mesh's triangles. A case is distinct by "
         "its text; all cases count as non-trivial (each runs one library operation on a generated geometry)")
 
 
@@ -43,8 +43,59 @@ def extra(ctx, lib):
         ctx.cov["harness_notes"] = notes
 
 
+def _decode(stream, mode):
+    """index stream -> sorted multiset of triangles (rotation-canonical, orientation kept); mode 'r': 'R' separates
+    strips; mode 'd': one strip, triangles with two equal indices are dropped."""
+    if stream in ("-", ""):
+        return []
+    toks = stream.split(",")
+    segs = [[]]
+    for t in toks:
+        if t == "R":
+            segs.append([])
+        else:
+            segs[-1].append(int(t))
+    out = []
+    for g in segs:
+        for j in range(len(g) - 2):
+            t = (g[j + 1], g[j], g[j + 2]) if j & 1 else (g[j], g[j + 1], g[j + 2])
+            if mode == "d" and len(set(t)) < 3:
+                continue
+            k = t.index(min(t))
+            # rotation-canonical: start at the first smallest id that gives the smallest rotation
+            out.append(min((t[i], t[(i + 1) % 3], t[(i + 2) % 3]) for i in range(3)))
+    return sorted(out)
+
+
+def _strip_policy_difference(impl_line, model_line):
+    """The property leaves the choice of strips free (greedy heuristic, tie-breaking): an index stream that differs
+    from the model's but decodes to the same triangles is not a disagreement about the property."""
+    try:
+        la, ra = impl_line.split(" | ")
+        lb, rb = model_line.split(" | ")
+        if not la.startswith("strip ") or la != lb:
+            return False
+        if "fail" in (ra, rb) or "HYPOTHESIS" in rb:
+            return False
+        mode = la.split(" ")[1]
+        return _decode(ra.strip(), mode) == _decode(rb.strip(), mode)
+    except Exception:
+        return False
+
+
 def run(ctx):
-    V.standard_run(ctx, __import__(__name__))
+    orig = V.run_cases
+
+    def filtered(*a, **k):
+        n, mism, fails, cases = orig(*a, **k)
+        keep = [m for m in mism if not _strip_policy_difference(m[1], m[2])]
+        ctx.cov["strip_streams_different_from_model_but_decoding_equal"] = len(mism) - len(keep)
+        return n, keep, fails, cases
+    V.run_cases = filtered
+    try:
+        V.standard_run(ctx, __import__(__name__))
+    finally:
+        V.run_cases = orig
 
 
 def replay(ctx, path):
